@@ -593,6 +593,7 @@ def _run_plan(plan, pristine_fp, yatiml_dir, yaml_dir, mount, sched, profile=Fal
 
     transient = []
     mutated = []
+    repeats = []
 
     def on_switch(sc, cur, nxt, loc):
         if not transient and cheap() != cheap0:
@@ -609,11 +610,18 @@ def _run_plan(plan, pristine_fp, yatiml_dir, yaml_dir, mount, sched, profile=Fal
     def make_body(tid, oplist):
         if repeat > 1:
             # a long history: the same operations over and over (count-dependent
-            # state: bounded caches, counters, "every n-th call"); at most 8000 calls
-            if repeat * len(oplist) > 8000:
-                oplist = oplist[:max(1, 8000 // repeat)]
-            oplist = [dict(op, file='{}r{}'.format(op.get('file', 'f.x'), r)) if 'file' in op else op
-                      for r in range(repeat) for op in oplist if op['op'] != 'mk' or r == 0]
+            # state: bounded caches, counters, "every n-th call"); at most 16000 calls
+            if repeat * len(oplist) > 16000:
+                oplist = oplist[:max(1, 16000 // repeat)]
+
+        def check_shared(op, out, i):
+            j = op.get('shared')
+            if j in env.shared and not mutated and out.get('status') in ('ok', 'exc') \
+                    and not out.get('cancel_fired'):
+                # (untraced: begin_op of the next operation re-arms tracing)
+                sys.settrace(None)
+                if canon.canon_graph(env.shared[j]) != shared0[j]:
+                    mutated.append({'thread': tid, 'index': i, 'shared': j, 'op': op['op']})
 
         def body(th):
             for i, op in enumerate(oplist):
@@ -621,13 +629,31 @@ def _run_plan(plan, pristine_fp, yatiml_dir, yaml_dir, mount, sched, profile=Fal
                 th.cur_op = i
                 out = exec_op(env, op, th)
                 history.append({'t': tid, 'i': i, 'op': op, 'out': out, 'inv': inv, 'ret': sc.step})
-                j = op.get('shared')
-                if j in env.shared and not mutated and out.get('status') in ('ok', 'exc') \
-                        and not out.get('cancel_fired'):
-                    # (untraced: begin_op of the next operation re-arms tracing)
-                    sys.settrace(None)
-                    if canon.canon_graph(env.shared[j]) != shared0[j]:
-                        mutated.append({'thread': tid, 'index': i, 'shared': j, 'op': op['op']})
+                check_shared(op, out, i)
+            if repeat <= 1:
+                return
+            # repetitions 2..n in a tight loop: an outcome is recorded only when it
+            # differs from the previous outcome of the same operation, so that the
+            # harness itself retains nothing between calls (a caller looping over
+            # load() does not either, and address re-use patterns stay like theirs)
+            last = {}
+            for rec in history:
+                if rec['t'] == tid:
+                    last[rec['i']] = canon.short(comparable(rec['out']))
+            n = len(oplist)
+            for r in range(1, repeat):
+                for i, op in enumerate(oplist):
+                    if op['op'] == 'mk':
+                        continue
+                    th.cur_op = i
+                    out = exec_op(env, op, th)
+                    dg = canon.short(comparable(out))
+                    if last.get(i) != dg:
+                        last[i] = dg
+                        history.append({'t': tid, 'i': r * n + i, 'op': op, 'out': out,
+                                        'inv': sc.step, 'ret': sc.step, 'rep': r})
+                        check_shared(op, out, r * n + i)
+            repeats.append(repeat * n)
         return body
 
     for tid, oplist in enumerate(threads):
@@ -696,7 +722,8 @@ def _run_plan(plan, pristine_fp, yatiml_dir, yaml_dir, mount, sched, profile=Fal
              'edges': sorted(sc.switch_edges)[:400], 'switch_log': sc.switch_log[:12],
              'cb_yields': sc.cb_yields, 'io_yields': sc.io_yields, 'lock_blocks': sc.lock_blocks,
              'cancel_locs': sc.cancel_locs[:8], 'traced': traced, 'hung': sc.hung,
-             'writes': writes[:400], 'thread_yields': [t.nyield for t in sc.threads]}
+             'writes': writes[:400], 'thread_yields': [t.nyield for t in sc.threads],
+             'repeated_calls': sum(repeats)}
     return {'history': history, 'violations': violations, 'harness': harness, 'stats': stats}
 
 
@@ -1022,6 +1049,9 @@ class World(Engine):
                                    'switches': rs['switches'], 'switch_log': rs['switch_log'],
                                    'switch_digest': rs['switch_digest']}})
         stats.count('ops_compared', n_cmp)
+        stats.count('calls_in_long_histories', rs.get('repeated_calls', 0))
+        if rs.get('repeated_calls'):
+            stats.count('plans_with_long_history')
         stats.count('simulated_runs')
         stats.count('yield_points', rs['steps'])
         stats.count('switches', rs['switches'])
@@ -1150,6 +1180,8 @@ class World(Engine):
             'probes': probes,
             'lock_blocks': c.get('lock_blocks', 0),
             'plans_skipped_step_cap': c.get('plans_skipped_step_cap', 0),
+            'long_histories': {'plans': c.get('plans_with_long_history', 0),
+                               'calls': c.get('calls_in_long_histories', 0)},
             'directed_schedules': {'profiling_runs': c.get('sweep_profiles', 0),
                                    'profiles_too_long': c.get('sweep_profiles_too_long', 0),
                                    'write_points_found': c.get('sweep_write_points', 0),
